@@ -198,6 +198,7 @@ func (d *electionManager) renewLeadership(ctx context.Context,
 		d.clientProposalCompleted()
 		if code != DBKVUpdated {
 			d.becomeFollower(nil)
+			return errors.New("leadership renewal refused")
 		}
 		return nil
 	}
